@@ -119,7 +119,8 @@ def parseLink (mode : RxMode) (j : Json) : Except String Link := do
   let tfs ← j.getObjValAs? (Array String) "tfs"
   let mm ← j.getObjValAs? Bool "mm"
   let na ← (← j.getObjValAs? (Array Json) "na").toList.mapM (parseNAct mode)
-  pure ⟨tg, op, tfs.toList, mm, na⟩
+  let lid := match j.getObjValAs? Nat "lid" with | .ok n => n | _ => 0
+  pure ⟨tg, op, tfs.toList, mm, na, lid⟩
 
 def parseDisr (j : Json) : Except String Disr := do
   let d ← j.getObjValAs? String "disr"
